@@ -39,11 +39,21 @@ Print Assumptions C20_translation_facts.
 
 (* shape 1: class C(<bases>, Generic[T1..Tn], <bases>) - Generic[..] at any position, the other bases
    classes or aliases - instantiated as C[X1..Xn]():  exactly {Ti: Xi}, in declaration order.
-   shapes 2 and 3: class S(<extra bases>, D[X1..Xn], <further bases>) with D declaring Generic[T1..Tn] together with
-   the mixin: the same dict, however the instance was made (also inside __init__).  The extra bases in front of
-   D[..] are classes, parametrised bases that have nothing to do with the mixin (List[int]; P[int] with a generic P
-   that does not use GenericMixin - refuted before fix c1eb572, findings K-C20-builtin-alias-first /
-   K-C20-foreign-generic-first), or parametrised forwarding classes (see `binding_subclass`): the full statement. *)
+   shapes 2 and 3: class S(<extra bases>, D[X1..Xn], <further bases>), D[..] the first parametrised base that uses the
+   mixin, the extra bases in front of it classes or parametrised bases that have nothing to do with the mixin
+   (List[int]; P[int] with a generic P that does not use GenericMixin - repaired by fix c1eb572): the mapping of D's
+   parameters, however the instance was made (also inside __init__).
+
+   Full statement for shapes 2 and 3 (FALSE on the pinned tree, see C20_type_vars_forwarding_refuted):
+
+     forall tv w k c kvs oc, chain_binding tv w c kvs -> type_vars_at w k c oc = Ok (VDict kvs)
+
+   where D may have got its parameters through a chain of forwarding / partially binding classes
+   (class A(Generic[T, U], GenericMixin); class Half(A[int, U]); class Full(Half[str]) : {T: int, U: str}) and kvs is
+   the mapping of the declaring class with the alias arguments substituted along the chain (Spec `resolve`).
+   What is proved (the _partial form, guard spelled out in `binding_subclass`): D declares Generic[T1..Tn] itself.
+   That is the narrowest guard: with a chain of length >= 2 _get_types raises AttributeError, or reports the binding
+   of a later base. *)
 Theorem C20_type_vars_exact : forall w k c ts xs,
   (direct_generic w c ts -> forall o, type_vars_at w k c (Some (VAlias o xs)) = Ok (VDict (combine ts xs))) /\
   (binding_subclass w c ts xs -> forall oc, type_vars_at w k c oc = Ok (VDict (combine ts xs))).
@@ -72,6 +82,51 @@ Proof.
   assert (H13 : binding_subclass fb_world 13 [VTok 0] [VTok 21]) by (apply binding_subclass_b_sound; vm_compute; reflexivity).
   split; [exact H12|]. split; [exact H13|]. split; intros k oc; [exact (tv_binding _ k _ oc _ _ H12)|exact (tv_binding _ k _ oc _ _ H13)].
 Qed.
+
+(* known findings K-C20-forwarding-chain and K-C20-partially-binding-chain (the mixin is class 1, TypeVars are the
+   tokens below 20):
+     class A(Generic[T0], GenericMixin) = 10;  class Mid(A[T0]) = 11;  class C(Mid[X21]) = 12
+        C().type_vars raises AttributeError ('NoneType' object has no attribute '__args__'), demanded {T0: X21}
+     class A2(Generic[T0, T1], GenericMixin) = 20;  class Half(A2[X22, T1]) = 21;  class Full(Half[X23]) = 22
+        Full().type_vars raises AttributeError, demanded {T0: X22, T1: X23}
+     class D(Generic[T2], GenericMixin) = 30;  class E(Mid[X21], D[X24]) = 31
+        E().type_vars == {T2: X24}, the binding of the second base, demanded {T0: X21} *)
+Definition fw_tv (v : val) : bool := match v with VTok n => Nat.ltb n 20 | _ => false end.
+Definition fw_world : world :=
+  {| w_classes := [(10, {| c_own_ob := Some [VAlias VGeneric [VTok 0]; VCls 1]; c_mro := [10; 2; 1; 0] |});
+                   (11, {| c_own_ob := Some [VAlias (VCls 10) [VTok 0]]; c_mro := [11; 10; 2; 1; 0] |});
+                   (12, {| c_own_ob := Some [VAlias (VCls 11) [VTok 21]]; c_mro := [12; 11; 10; 2; 1; 0] |});
+                   (20, {| c_own_ob := Some [VAlias VGeneric [VTok 0; VTok 1]; VCls 1]; c_mro := [20; 2; 1; 0] |});
+                   (21, {| c_own_ob := Some [VAlias (VCls 20) [VTok 22; VTok 1]]; c_mro := [21; 20; 2; 1; 0] |});
+                   (22, {| c_own_ob := Some [VAlias (VCls 21) [VTok 23]]; c_mro := [22; 21; 20; 2; 1; 0] |});
+                   (30, {| c_own_ob := Some [VAlias VGeneric [VTok 2]; VCls 1]; c_mro := [30; 2; 1; 0] |});
+                   (31, {| c_own_ob := Some [VAlias (VCls 11) [VTok 21]; VAlias (VCls 30) [VTok 24]]; c_mro := [31; 11; 10; 30; 2; 1; 0] |})];
+     w_attrs := []; w_mixin := 1 |}.
+
+Theorem C20_type_vars_forwarding_refuted :
+  (exists tv w c kvs, chain_binding tv w c kvs /\ kvs = [(VTok 0, VTok 21)] /\
+     forall k oc, type_vars_at w k c oc = Raise AttributeErrorC) /\
+  (exists tv w c kvs, chain_binding tv w c kvs /\ kvs = [(VTok 0, VTok 22); (VTok 1, VTok 23)] /\
+     forall k oc, type_vars_at w k c oc = Raise AttributeErrorC) /\
+  (exists tv w c kvs, chain_binding tv w c kvs /\ kvs = [(VTok 0, VTok 21)] /\
+     forall k oc, type_vars_at w k c oc = Ok (VDict [(VTok 2, VTok 24)])).
+Proof.
+  split; [|split].
+  - exists fw_tv, fw_world, 12, [(VTok 0, VTok 21)]. split; [|split; [reflexivity|intros; reflexivity]].
+    apply (chain_binding_b_sound fw_tv fw_world 12 [VTok 0] [VTok 21]). vm_compute. reflexivity.
+  - exists fw_tv, fw_world, 22, [(VTok 0, VTok 22); (VTok 1, VTok 23)]. split; [|split; [reflexivity|intros; reflexivity]].
+    apply (chain_binding_b_sound fw_tv fw_world 22 [VTok 0; VTok 1] [VTok 22; VTok 23]). vm_compute. reflexivity.
+  - exists fw_tv, fw_world, 31, [(VTok 0, VTok 21)]. split; [|split; [reflexivity|intros; reflexivity]].
+    apply (chain_binding_b_sound fw_tv fw_world 31 [VTok 0] [VTok 21]). vm_compute. reflexivity.
+Qed.
+Print Assumptions C20_type_vars_forwarding_refuted.
+
+(* the guarded form is the full statement restricted to chains of length 1 *)
+Theorem C20_type_vars_guarded_is_instance_of_full : forall tv w c ts xs,
+  binding_subclass w c ts xs -> List.length ts = List.length xs -> forallb (fun x => negb (tv x)) xs = true ->
+  chain_binding tv w c (combine ts xs).
+Proof. exact binding_is_chain. Qed.
+Print Assumptions C20_type_vars_guarded_is_instance_of_full.
 
 (* with as many arguments as parameters the dict has the TypeVars as keys and the arguments as values, in order *)
 Theorem C20_type_vars_order : forall (ts xs : list val),
